@@ -49,10 +49,12 @@ static void run_arena(int n, size_t elem, size_t align, int32_t mu, int32_t mr, 
     int still = 0;
     for (int t = 0; t < n; t++) for (int i = 0; i < MAXHOLD; i++) if (holds[t][i].in_use) still += holds[t][i].count;
     CHK(still == owned_elems, "harness: ownership accounting");
-    int cached = arena_cached();
+    int cached = arena_cached(), nheld = 0;
+    for (int t = 0; t < n; t++) for (int i = 0; i < MAXHOLD; i++) if (holds[t][i].in_use) nheld++;
+    CHK(live_slots() == cached + nheld, "%d blocks are allocated from the system, but %d are cached and %d in use (leak)", live_slots(), cached, nheld);
     if (mr != INT32_MAX) CHK(arena->released == cached, "arena->released is %d but %d blocks are cached", arena->released, cached);
     if (mu != INT32_MAX) {
-        int sys_elems = 0; for (int s = 0; s < NSLOT; s++) if (slot_state[s] == SL_LIVE) sys_elems += (slot_size[s] > a_elem + a_align + sizeof(parsec_arena_chunk_t) + a_align) ? 2 : 1;
+        int sys_elems = cached + still;           /* every live allocation is either cached (1 element) or still held */
         CHK(arena->used == sys_elems, "arena->used is %d but %d elements are allocated (cached %d + in use %d)", arena->used, sys_elems, cached, still);
         CHK(arena->used <= mu, "arena->used (%d) above the allocation limit (%d) at rest", arena->used, mu);
     }
